@@ -348,8 +348,6 @@ pub fn c03_strategy(max_len: usize, transports: BoxedStrategy<Transport>) -> Box
         .prop_flat_map(|(((framing, also_cl), headers, mask, version, upgrade), followers, transport, split)| {
             let (framing, version) = if upgrade {
                 (Framing::Upgrade { rest: framing_body_len(&framing) }, "HTTP/1.1")
-            } else if matches!(framing, Framing::Chunked { .. }) {
-                (framing, "HTTP/1.1")
             } else {
                 (framing, version)
             };
@@ -453,7 +451,10 @@ pub fn c09_strategy_p(max_len: usize, transports: BoxedStrategy<Transport>, with
                     // HTTP/1.0 clients with keep-alive reuse the connection too
                     let v10 = !matches!(framing, Framing::Chunked { .. }) && (mask >> 24) % 4 == 0;
                     let (version, conn) = if v10 { ("HTTP/1.0", Some(["keep-alive", "Keep-Alive"][(mask as usize >> 26) % 2].to_string())) } else { ("HTTP/1.1", None) };
-                    conv.reqs.push(build_req(id, "POST".into(), "/b".into(), version, headers, framing, None, mask as usize, mask, conn, false));
+                    // now and then the body is announced with an expectation; the client sends it without
+                    // waiting, whether or not the application ever asks for it
+                    let expect = (mask >> 28) % 4 == 0;
+                    conv.reqs.push(build_req(id, "POST".into(), "/b".into(), version, headers, framing, None, mask as usize, mask, conn, expect));
                     progs.push(Prog { read, finish });
                 } else {
                     conv.reqs.push(sentinel(id));
@@ -491,7 +492,12 @@ pub fn c10_malform(n_headers: usize) -> BoxedStrategy<Malform> {
         3 => proptest::sample::select(vec!["HTTP/1.2", "HTTP/1.10", "HTTP/2", "HTTP/4.0", "http/1.1", "HTTP/1.1x", "HTTP1.1", "HTTP/", "xyz", "HTTP/01.1", "HTTP/1.1.1", "HTTP/11"]).prop_map(|s| Malform::VersionToken(s.to_string())),
         3 => proptest::sample::select(vec!["HTTP/2.0", "HTTP/3.0"]).prop_map(|s| Malform::VersionToken(s.to_string())),
         2 => (0..=nh, proptest::sample::select(vec!["NoColonHere", "X-Broken value", "garbage", "Host", " ", "\t", "  \t ", " x", "a b c", "="])).prop_map(|(at, t)| Malform::HeaderNoColon { at, text: t.to_string() }),
-        2 => (prop_oneof![Just(Place::RequestLine), (0..nh).prop_map(Place::HeaderName), (0..nh).prop_map(Place::HeaderValue)], 0x80u8..=0xff).prop_map(|(place, byte)| Malform::NonAscii { place, byte }),
+        2 => (prop_oneof![Just(Place::RequestLine), (0..nh).prop_map(Place::HeaderName), (0..nh).prop_map(Place::HeaderValue)], 0x80u8..=0xff).prop_map(|(place, byte)| Malform::NonAscii { place, byte, tail: vec![] }),
+        // well-formed multi-byte UTF-8 (é, €, a musical clef, no-break space, em space): no less non-ASCII
+        2 => (prop_oneof![2 => Just(Place::RequestLine), 1 => Just(Place::RequestLineEnd), 1 => (0..nh).prop_map(Place::HeaderName), 2 => (0..nh).prop_map(Place::HeaderValue)], proptest::sample::select(vec!["\u{e9}", "\u{20ac}", "\u{1d11e}", "\u{a0}", "\u{2003}", "\u{85}"])).prop_map(|(place, t)| {
+            let b = t.as_bytes();
+            Malform::NonAscii { place, byte: b[0], tail: b[1..].to_vec() }
+        }),
         2 => proptest::sample::select(vec!["100 continue", "100-continue, x", "200-ok", "continue", "100-continuee", "", "\"100-continue\""]).prop_map(|s| Malform::Expect(s.to_string())),
     ]
     .boxed()
@@ -528,8 +534,8 @@ pub fn c10_strategy(transports: BoxedStrategy<Transport>) -> BoxedStrategy<ConvC
                     let nh = r.headers.len();
                     let mal = match mal.clone() {
                         Malform::HeaderNoColon { at, text } => Malform::HeaderNoColon { at: at.min(nh), text },
-                        Malform::NonAscii { place: Place::HeaderName(k), byte } => Malform::NonAscii { place: Place::HeaderName(k % nh), byte },
-                        Malform::NonAscii { place: Place::HeaderValue(k), byte } => Malform::NonAscii { place: Place::HeaderValue(k % nh), byte },
+                        Malform::NonAscii { place: Place::HeaderName(k), byte, tail } => Malform::NonAscii { place: Place::HeaderName(k % nh), byte, tail },
+                        Malform::NonAscii { place: Place::HeaderValue(k), byte, tail } => Malform::NonAscii { place: Place::HeaderValue(k % nh), byte, tail },
                         m => m,
                     };
                     // a request with a version above 1.1 may carry an expectation and a body the
